@@ -8,7 +8,9 @@
 #include <stddef.h>
 #include <stdint.h>
 
-#define V_LEN_MAX 4096UL
+#ifndef V_LEN_MAX
+# define V_LEN_MAX 4096UL  /* value bound on buffer lengths; the SAT variants use a smaller constant so that quantifiers expand */
+#endif
 
 /* ghost witnesses */
 extern size_t g_k;     /* observed position */
@@ -23,7 +25,7 @@ __CPROVER_requires(__CPROVER_is_fresh(b1_, len) && __CPROVER_is_fresh(b2_, len))
 __CPROVER_assigns()
 __CPROVER_ensures(__CPROVER_return_value == 0 || __CPROVER_return_value == -1)
 __CPROVER_ensures((__CPROVER_return_value == 0) ==
-                  __CPROVER_forall { size_t q_mc; (q_mc < len) ==> ((const unsigned char *) b1_)[q_mc] == ((const unsigned char *) b2_)[q_mc] })
+                  __CPROVER_forall { size_t q_mc; (q_mc < V_LEN_MAX) ==> ((q_mc < len) ==> ((const unsigned char *) b1_)[q_mc] == ((const unsigned char *) b2_)[q_mc]) })
 ;
 
 /* ---- sodium_is_zero: 1 iff all bytes are zero --------------------------------------------------------------- */
@@ -31,7 +33,7 @@ int sodium_is_zero_spec(const unsigned char *n, const size_t nlen)
 __CPROVER_requires(nlen <= V_LEN_MAX && __CPROVER_is_fresh(n, nlen))
 __CPROVER_assigns()
 __CPROVER_ensures(__CPROVER_return_value == 0 || __CPROVER_return_value == 1)
-__CPROVER_ensures((__CPROVER_return_value == 1) == __CPROVER_forall { size_t q_iz; (q_iz < nlen) ==> n[q_iz] == 0 })
+__CPROVER_ensures((__CPROVER_return_value == 1) == __CPROVER_forall { size_t q_iz; (q_iz < V_LEN_MAX) ==> ((q_iz < nlen) ==> n[q_iz] == 0) })
 ;
 
 /* ---- sodium_compare: little-endian numeric order.
@@ -42,69 +44,59 @@ int sodium_compare_spec(const unsigned char *b1_, const unsigned char *b2_, size
 __CPROVER_requires(len <= V_LEN_MAX)
 __CPROVER_requires(__CPROVER_is_fresh(b1_, len) && __CPROVER_is_fresh(b2_, len))
 __CPROVER_requires(g_case == 0 || g_case == 1)
-__CPROVER_requires(g_case == 0 ==> __CPROVER_forall { size_t q_c0; (q_c0 < len) ==> b1_[q_c0] == b2_[q_c0] })
+__CPROVER_requires(g_case == 0 ==> __CPROVER_forall { size_t q_c0; (q_c0 < V_LEN_MAX) ==> ((q_c0 < len) ==> b1_[q_c0] == b2_[q_c0]) })
 __CPROVER_requires(g_case == 1 ==> (g_j < len && b1_[g_j] != b2_[g_j] &&
-                   __CPROVER_forall { size_t q_c1; (g_j < q_c1 && q_c1 < len) ==> b1_[q_c1] == b2_[q_c1] }))
+                   __CPROVER_forall { size_t q_c1; (q_c1 < V_LEN_MAX) ==> ((g_j < q_c1 && q_c1 < len) ==> b1_[q_c1] == b2_[q_c1]) }))
 __CPROVER_assigns()
 __CPROVER_ensures(g_case == 0 ==> __CPROVER_return_value == 0)
 __CPROVER_ensures(g_case == 1 ==> __CPROVER_return_value == (b1_[g_j] < b2_[g_j] ? -1 : 1))
 ;
 
-/* ---- sodium_increment: n := n + 1 mod 2^(8 nlen).
- *   g_case == 0 : all bytes are 0xff                     -> every byte becomes 0
- *   g_case == 1 : g_j is the lowest byte that is != 0xff -> bytes below g_j become 0, byte g_j is incremented,
- *                                                           bytes above g_j keep their value
- * observed at the arbitrary position g_k (old value g_a0[g_k])                                                    */
+/* ---- sodium_increment / sodium_add / sodium_sub: little-endian arithmetic modulo 2^(8 len).
+ *
+ * Specification = the schoolbook recurrence that DEFINES multi-precision addition, stated for an arbitrary pair of
+ * adjacent positions g_k, g_k+1 (ghost index; quantifier free, so the SAT back end proves and refutes it):
+ *     out[k] = (a[k] + b[k] + cin_k) mod 256,  cin_0 = 0 (1 for increment),  cin_{k+1} = (a[k] + b[k] + cin_k) div 256
+ * cin_k is named through the output byte itself: V_CIN(out[k], a[k], b[k]) = out[k] - a[k] - b[k] mod 256.
+ * (1) cin_k <= 1,  (2) cin_0 as stated,  (3) out[k+1] uses exactly the carry produced at position k.
+ * By induction on k (paper lemma) these three facts for every g_k are equivalent to out = a + b mod 2^(8 len): a
+ * dropped, duplicated or late carry at any position of any length violates (3) at that position.
+ * g_old0 / g_old1 hold the old values of a[g_k] / a[g_k+1] (the operation is in place).                           */
+extern unsigned char g_old0, g_old1;
+#define V_CIN(anew, aold, bb) ((unsigned char) ((anew) - (aold) - (bb)))
+#define V_BIN(anew, aold, bb) ((unsigned char) ((aold) - (bb) - (anew)))
+
 void sodium_increment_spec(unsigned char *n, const size_t nlen)
-__CPROVER_requires(nlen <= V_LEN_MAX && __CPROVER_is_fresh(n, nlen) && __CPROVER_is_fresh(g_a0, nlen))
-__CPROVER_requires(__CPROVER_forall { size_t q_i0; (q_i0 < nlen) ==> n[q_i0] == g_a0[q_i0] })
-__CPROVER_requires(g_k < nlen && (g_case == 0 || g_case == 1))
-__CPROVER_requires(g_case == 0 ==> __CPROVER_forall { size_t q_i1; (q_i1 < nlen) ==> n[q_i1] == 0xff })
-__CPROVER_requires(g_case == 1 ==> (g_j < nlen && n[g_j] != 0xff &&
-                   __CPROVER_forall { size_t q_i2; (q_i2 < g_j) ==> n[q_i2] == 0xff }))
+__CPROVER_requires(nlen <= V_LEN_MAX && __CPROVER_is_fresh(n, nlen))
+__CPROVER_requires(g_k < nlen && n[g_k] == g_old0 && (g_k + 1 < nlen ==> n[g_k + 1] == g_old1))
 __CPROVER_assigns(__CPROVER_object_upto(n, nlen))
-__CPROVER_ensures(g_case == 0 ==> n[g_k] == 0)
-__CPROVER_ensures((g_case == 1 && g_k < g_j) ==> n[g_k] == 0)
-__CPROVER_ensures((g_case == 1 && g_k == g_j) ==> n[g_k] == (unsigned char) (g_a0[g_k] + 1))
-__CPROVER_ensures((g_case == 1 && g_k > g_j) ==> n[g_k] == g_a0[g_k])
+__CPROVER_ensures(V_CIN(n[g_k], g_old0, 0) <= 1)
+__CPROVER_ensures(g_k == 0 ==> V_CIN(n[g_k], g_old0, 0) == 1)
+__CPROVER_ensures(g_k + 1 < nlen ==> n[g_k + 1] == (unsigned char) (g_old1 + ((g_old0 + V_CIN(n[g_k], g_old0, 0)) >> 8)))
 ;
 
-/* ---- sodium_add: a := a + b mod 2^(8 len), carry-look-ahead specification.
- * The carry into position g_k is fixed by the nearest position below g_k that does not propagate:
- *   g_case == 0 : every position below g_k propagates (a+b == 255)        -> carry-in 0
- *   g_case == 1 : g_j < g_k generates (a+b >= 256), all between propagate -> carry-in 1
- *   g_case == 2 : g_j < g_k kills     (a+b <= 254), all between propagate -> carry-in 0
- * (exhaustive).  Postcondition: a'[g_k] == (a[g_k] + b[g_k] + carry-in) mod 256.                                  */
 void sodium_add_spec(unsigned char *a, const unsigned char *b, const size_t len)
-__CPROVER_requires(len <= V_LEN_MAX && __CPROVER_is_fresh(a, len) && __CPROVER_is_fresh(b, len) && __CPROVER_is_fresh(g_a0, len))
-__CPROVER_requires(__CPROVER_forall { size_t q_a0; (q_a0 < len) ==> a[q_a0] == g_a0[q_a0] })
-__CPROVER_requires(g_k < len && g_case >= 0 && g_case <= 2)
-__CPROVER_requires(g_case == 0 ==> __CPROVER_forall { size_t q_a1; (q_a1 < g_k) ==> a[q_a1] + b[q_a1] == 255 })
-__CPROVER_requires(g_case != 0 ==> (g_j < g_k &&
-                   __CPROVER_forall { size_t q_a2; (g_j < q_a2 && q_a2 < g_k) ==> a[q_a2] + b[q_a2] == 255 }))
-__CPROVER_requires(g_case == 1 ==> a[g_j] + b[g_j] >= 256)
-__CPROVER_requires(g_case == 2 ==> a[g_j] + b[g_j] <= 254)
+__CPROVER_requires(len <= V_LEN_MAX && __CPROVER_is_fresh(a, len) && __CPROVER_is_fresh(b, len))
+__CPROVER_requires(g_k < len && a[g_k] == g_old0 && (g_k + 1 < len ==> a[g_k + 1] == g_old1))
 __CPROVER_assigns(__CPROVER_object_upto(a, len))
-__CPROVER_ensures(a[g_k] == (unsigned char) (g_a0[g_k] + b[g_k] + (g_case == 1 ? 1 : 0)))
+__CPROVER_ensures(V_CIN(a[g_k], g_old0, b[g_k]) <= 1)
+__CPROVER_ensures(g_k == 0 ==> V_CIN(a[g_k], g_old0, b[g_k]) == 0)
+__CPROVER_ensures(g_k + 1 < len ==> a[g_k + 1] == (unsigned char) (g_old1 + b[g_k + 1] + ((g_old0 + b[g_k] + V_CIN(a[g_k], g_old0, b[g_k])) >> 8)))
 ;
 
-/* ---- sodium_sub: a := a - b mod 2^(8 len), borrow-look-ahead (propagate: a == b, generate: a < b, kill: a > b) */
+/* subtraction: out[k] = a[k] - b[k] - bin_k mod 256, bin_0 = 0, bin_{k+1} = 1 iff a[k] < b[k] + bin_k */
 void sodium_sub_spec(unsigned char *a, const unsigned char *b, const size_t len)
-__CPROVER_requires(len <= V_LEN_MAX && __CPROVER_is_fresh(a, len) && __CPROVER_is_fresh(b, len) && __CPROVER_is_fresh(g_a0, len))
-__CPROVER_requires(__CPROVER_forall { size_t q_s0; (q_s0 < len) ==> a[q_s0] == g_a0[q_s0] })
-__CPROVER_requires(g_k < len && g_case >= 0 && g_case <= 2)
-__CPROVER_requires(g_case == 0 ==> __CPROVER_forall { size_t q_s1; (q_s1 < g_k) ==> a[q_s1] == b[q_s1] })
-__CPROVER_requires(g_case != 0 ==> (g_j < g_k &&
-                   __CPROVER_forall { size_t q_s2; (g_j < q_s2 && q_s2 < g_k) ==> a[q_s2] == b[q_s2] }))
-__CPROVER_requires(g_case == 1 ==> a[g_j] < b[g_j])
-__CPROVER_requires(g_case == 2 ==> a[g_j] > b[g_j])
+__CPROVER_requires(len <= V_LEN_MAX && __CPROVER_is_fresh(a, len) && __CPROVER_is_fresh(b, len))
+__CPROVER_requires(g_k < len && a[g_k] == g_old0 && (g_k + 1 < len ==> a[g_k + 1] == g_old1))
 __CPROVER_assigns(__CPROVER_object_upto(a, len))
-__CPROVER_ensures(a[g_k] == (unsigned char) (g_a0[g_k] - b[g_k] - (g_case == 1 ? 1 : 0)))
+__CPROVER_ensures(V_BIN(a[g_k], g_old0, b[g_k]) <= 1)
+__CPROVER_ensures(g_k == 0 ==> V_BIN(a[g_k], g_old0, b[g_k]) == 0)
+__CPROVER_ensures(g_k + 1 < len ==> a[g_k + 1] == (unsigned char) (g_old1 - b[g_k + 1] - ((int) g_old0 < (int) b[g_k] + (int) V_BIN(a[g_k], g_old0, b[g_k]) ? 1 : 0)))
 ;
 
 /* ---- sodium_memzero: exactly len bytes become zero (frame: only pnt[0..len)) --------------------------------- */
 void sodium_memzero_spec(void *const pnt, const size_t len)
 __CPROVER_requires(len <= V_LEN_MAX && __CPROVER_is_fresh(pnt, len))
 __CPROVER_assigns(__CPROVER_object_upto(pnt, len))
-__CPROVER_ensures(__CPROVER_forall { size_t q_mz; (q_mz < len) ==> ((unsigned char *) pnt)[q_mz] == 0 })
+__CPROVER_ensures(__CPROVER_forall { size_t q_mz; (q_mz < V_LEN_MAX) ==> ((q_mz < len) ==> ((unsigned char *) pnt)[q_mz] == 0) })
 ;
